@@ -19,7 +19,8 @@ RULE = ('module M (4-40 functions, data segments incl. passive ones + memory.ini
         'own against the header; all files linked with the driver (gnu-ld: plus ld -r -b binary datasegments) reproduce the '
         'interpreter transcript of the call script; for equal formatting options the multiset of function texts equals the '
         'single-file -t 1 output; a function sits in an s* file only if R contains a byte-identical body; reruns and all thread '
-        'counts give byte-identical files; all translator build variants give byte-identical files. Non-trivial = variant with '
+        'counts give byte-identical files, also when the output directory already holds the files of an earlier run with other '
+        'options (no -c); all translator build variants give byte-identical files. Non-trivial = variant with '
         '>= 2 implementation files, both static and dynamic functions, >= 2 worker threads with >= 3 files, or >= 3 options; '
         'distinct by (module, option set).')
 ASSUME = ['command lines put options before the two positional arguments; -t is never passed to a HAS_PTHREAD=0 build',
@@ -340,6 +341,7 @@ def task(wid, seed, params):
             if classes:
                 res['nontrivial'].add(f1.hx((wb, tuple(opts))))
             # determinism: rerun + other thread counts + other translator builds must give byte-identical files
+            prev = None
             if not problems and files is not None:
                 alts = []
                 base_opts = [o for i, o in enumerate(opts) if o != '-t' and (i == 0 or opts[i - 1] != '-t')]
@@ -348,12 +350,26 @@ def task(wid, seed, params):
                 # every other translator build configuration, for every option set (a translation costs milliseconds)
                 for v in ('nopthread', 'nogetopt', 'nolibgen', 'nostrdup'):
                     alts.append((v, base_opts if v == 'nopthread' else opts, v))
+                # a run into a directory that already holds the output of an earlier, different run of the same module (other -f /
+                # -p / -r, no -c): every file this run writes is the same as in a fresh directory (leftovers of the earlier run
+                # that this run does not write are not its business)
+                prev = [o for i, o in enumerate(base_opts) if o not in ('-f', '-p') and (i == 0 or base_opts[i - 1] != '-f')]
+                prev = [o for i, o in enumerate(prev) if o not in ('-r', 'ref.wasm')] if ch.below(3) == 0 else prev
+                prev += ['-f', str(ch.pick((1, 2, 3, 5, nf, nf + 1)))] + (['-p'] if ch.below(4) == 0 else [])
+                alts.append(('used-directory', opts, 'plain'))
                 for what, o2, variant in alts:
-                    d2, tr2 = translate_to(wb, o2, variant, refb)
+                    if what == 'used-directory':
+                        d2, tr1 = translate_to(wb, prev, 'plain', refb)
+                        tr2 = cexec.translate(wb, d2, 'm', o2, variant) if tr1.rc == 0 else tr1
+                    else:
+                        d2, tr2 = translate_to(wb, o2, variant, refb)
                     try:
                         res['evaluations'] += 1
                         res['classes']['determinism_' + (what if not what.startswith('-t') else 'thread_count')] += 1
                         f2_ = read_outputs(d2) if tr2.rc == 0 else None
+                        if what == 'used-directory' and f2_ is not None:
+                            f2_ = dict((n, b) for n, b in f2_.items() if n in files)
+                            o2 = prev + ['then'] + list(o2)
                         if f2_ != files:
                             diff = sorted(set(files) ^ set(f2_ or {})) or [n for n in files if (f2_ or {}).get(n) != files[n]]
                             problems.append('output differs for %s (options %s): %s' % (what, ' '.join(o2), diff[:4] if f2_ is not None else 'exit %r %s' % (tr2.rc, tr2.err[-150:])))
@@ -365,6 +381,7 @@ def task(wid, seed, params):
                                           'summary': '%s | options=%s [%s]' % ('; '.join(problems[:2]), ' '.join(opts), mk),
                                           'replay': {'kind': 'c09', 'module_hex': wb.hex(), 'ref_hex': refb.hex(), 'options': opts,
                                                      'script': f1.script_to_json(script), 'ninst': ninst, 'problems': problems[:4],
+                                                     'prev_options': prev if files is not None and not any(not p_.startswith('output differs') for p_ in problems) else None,
                                                      'module_text': wasm.fmt_module(m)[:4000]}})
         if ci < 1:
             res['samples'].append({'generator': mk, 'functions': nf, 'option_sets': [' '.join(o) for o in optsets]})
@@ -618,6 +635,14 @@ def replay(rp):
             d2, tr2 = translate_to(wb, o2, 'plain', refb)
             try:
                 if tr2.rc != 0 or read_outputs(d2) != files:
+                    return True
+            finally:
+                cexec.rm(d2)
+        if rp.get('prev_options') is not None:
+            d2, tr1 = translate_to(wb, rp['prev_options'], 'plain', refb)
+            try:
+                tr2 = cexec.translate(wb, d2, 'm', rp['options'], 'plain')
+                if tr1.rc != 0 or tr2.rc != 0 or dict((n, b) for n, b in read_outputs(d2).items() if n in files) != files:
                     return True
             finally:
                 cexec.rm(d2)
